@@ -1168,11 +1168,22 @@ void mmd_export_token_latex(DString * out, const char * source, token * t, scrat
 			break;
 
 		case MATH_BRACKET_OPEN:
-			print_const("\\[");
+			if (t->mate) {
+				print_const("\\[");
+			} else {
+				// Not math after all -- the source says backslash, bracket
+				print_const("\\textbackslash{}[");
+			}
+
 			break;
 
 		case MATH_BRACKET_CLOSE:
-			print_const("\\]");
+			if (t->mate) {
+				print_const("\\]");
+			} else {
+				print_const("\\textbackslash{}]");
+			}
+
 			break;
 
 		case MATH_DOLLAR_SINGLE:
@@ -1194,11 +1205,21 @@ void mmd_export_token_latex(DString * out, const char * source, token * t, scrat
 			break;
 
 		case MATH_PAREN_OPEN:
-			print_const("\\(");
+			if (t->mate) {
+				print_const("\\(");
+			} else {
+				print_const("\\textbackslash{}(");
+			}
+
 			break;
 
 		case MATH_PAREN_CLOSE:
-			print_const("\\)");
+			if (t->mate) {
+				print_const("\\)");
+			} else {
+				print_const("\\textbackslash{})");
+			}
+
 			break;
 
 		case NON_INDENT_SPACE:
